@@ -3,6 +3,7 @@ import Proofs.C14.Scan
 import Proofs.C14.Roundtrip
 import Proofs.C14.Multipath
 import Proofs.C14.Derive
+import Proofs.C15.Text
 /-!
 # C14 — descriptors and wallets derive what they describe and recognise only their own
 
@@ -290,6 +291,31 @@ theorem parser_tables_as_modelled :
   refine ⟨by decide, by decide, by decide, by decide, by decide, by decide, by decide, by decide, by decide,
     by decide, by decide, by decide⟩
 
+/-- T2 (miniscript bodies, C15's AST inside this grammar): a sane, satisfiable P2WSH miniscript over
+    raw compressed keys that are points, whose text does not begin with a descriptor function name, is
+    read back by `_parse_expression` inside `wsh()` as the `MiniscriptDescriptor` of the same expression.
+    (The reading of the miniscript text itself is C15's theorem `parseSyntax_toText`.)  `musig()` keys and
+    miniscripts over extended keys stay outside the model. -/
+theorem parse_miniscript_of_text (o : KeyOracle) (fuel : Nat) (n : Miniscript.Ms)
+    (hs : Miniscript.shaped .p2wsh n = true) (ht : Miniscript.allTyped .p2wsh n = true)
+    (hB : (Miniscript.typeOf .p2wsh n).B = true)
+    (hsane : (Miniscript.isSane .p2wsh n && (Miniscript.maxStackItems .p2wsh n).isSome) = true)
+    (hk : ∀ k ∈ Miniscript.keysOf n, k.length = 33 ∧ (k.head? = some 2 ∨ k.head? = some 3) ∧ o.validPub k = true)
+    (hname : fnOf ((Miniscript.toText n).takeWhile (· != '(')) = none ∧
+      ((Miniscript.toText n).takeWhile (· != '(') == nMusig) = false ∧
+      isTreeFn ((Miniscript.toText n).takeWhile (· != '(')) = false) :
+    parseExpr o (fuel + 1) .wsh (strD (.ms n)) = .ok (.ms n) := by
+  have hp : Miniscript.parse .p2wsh (Miniscript.toText n) = some n := by
+    simp [Miniscript.parse, Miniscript.parseSyntax_toText .p2wsh n hs, hs, ht, hB]
+  have hall : ((Miniscript.keysOf n).all fun k =>
+      k.length == 33 && (k.head? == some 2 || k.head? == some 3) && o.validPub k) = true := by
+    rw [List.all_eq_true]
+    intro k hkm
+    obtain ⟨h1, h2, h3⟩ := hk k hkm
+    rcases h2 with h2 | h2 <;> simp [h1, h2, h3]
+  simp only [strD, parseExpr, hname.1, hname.2.1, hname.2.2, Bool.false_eq_true, if_false, Bool.false_and,
+    beq_self_eq_true, if_true, parseMs, hp, hall, Bool.not_true, hsane, Except.map]
+
 /-- a small oracle for the examples: texts starting with `x` are extended public keys, every point is
     on the curve. -/
 def exampleOracle : KeyOracle where
@@ -365,6 +391,14 @@ example :
                      hard := .h }
     let d : D := .tr x (some (.branch (.pk e) (.multiA 1 [x, e] false)))
     Desc.parse exampleOracle (strD d) = .ok d := by
+  decide +kernel
+
+/-- `wsh(and_v(v:pk(02aa…aa),older(144)))`: the miniscript is read by C15's reader inside this one. -/
+example :
+    let k : Bytes := 2 :: List.replicate 32 0xaa
+    let n : Miniscript.Ms := .bin .and_v (.wrap .v (.wrap .c (.pk_k k))) (.older 144)
+    let d : D := .wsh (.ms n)
+    (strD d).take 18 = "wsh(and_v(v:pk(02a".toList ∧ Desc.parse exampleOracle (strD d) = .ok d := by
   decide +kernel
 
 end T2
